@@ -174,6 +174,7 @@ def c16(run):
 def c17(run):
     run.trace("encode-any", Q(run, 4, 200))
     run.trace("tables", Q(run, 1, 2), seed_off=100)
+    run.trace("list-counts", Q(run, 1, 2), seed_off=200, chunk=120)
     return run.finish(RULE_TRACE)
 
 
@@ -244,6 +245,8 @@ def c19(run):
     # B: hook-free stress under the race detector, linearizability decided by TLC
     run.lin_stress(Q(run, 300, 2000), 4, 4)
     run.lin_stress(Q(run, 100, 600), 8, 3, names=3, seed_off=1)
+    # one hot name: a writer registering instance 1 / removing / registering instance 2 ..., five readers looking it up in every round
+    run.lin_stress(Q(run, 400, 3000), 6, 8, names=1, seed_off=3, profile="hot")
     if run.tier == "thorough":
         run.lin_stress(300, 12, 3, names=4, seed_off=2)
     run.assumptions += ["interleavings on the real code are exhaustive only for the gated schedules TLC generates; the stress part is probabilistic",
@@ -265,7 +268,8 @@ def c20(run):
     run.parallel("history", Q(run, 40, 300), goroutines=16, rounds=Q(run, 2, 4), seed_off=100, small=True,
                  types=["sse.SseBinary", "szse.SzseBinary", "risk.RcBinary", "sample.RootPacket", "bse.BjseBinary"])
     run.parallel("stream", Q(run, 1, 6), goroutines=8, rounds=1, seed_off=200)
-    run.parallel("encode-reuse", Q(run, 2, 10), goroutines=16, rounds=1, seed_off=300)
+    run.parallel("encode-reuse", Q(run, 4, 12), goroutines=16, rounds=1, seed_off=300)
+    run.parallel("trim-sides", Q(run, 8, 40), goroutines=16, rounds=Q(run, 2, 4), seed_off=400)
     run.assumptions += ["hidden shared state is found by the race detector and by results that differ from the solo run under contention: with high but not certain probability",
                         "discriminator tables and checksum services are only read after start-up (the side goroutines register/remove unrelated names only)"]
     return run.finish("design model: Parallel.tla (NonInterference; deviations SharedScratch and ClearOnSide must fail). B: the drivers' histories (all 170 types, "
